@@ -854,6 +854,8 @@ class RunA:
         }
 
     def execute(self):
+        from sim import core
+        core.apply_logging_config(self.trace)
         if self.threaded:
             return self.execute_threaded()
         METER.install()
